@@ -241,6 +241,12 @@ func mirrorKind(w *World, r *Report, k *Kind, efi, dfi *FuncInfo) {
 			return
 		}
 	}
+	decoderHasOpaqueLoop := false
+	for _, n := range ds.Notes {
+		if strings.Contains(n.Text, "general for loop") {
+			decoderHasOpaqueLoop = true
+		}
+	}
 	used := map[string]bool{}
 	kf := w.Facts(k)
 	// wire atoms of the decoder -> the fields they were stored into
@@ -492,6 +498,10 @@ func mirrorKind(w *World, r *Report, k *Kind, efi, dfi *FuncInfo) {
 			r.OK("mirror", k.Name, inst, pos, "the decoder fills "+wm.field+" from a staged local (offset not compared here)", false)
 			continue
 		}
+		if len(rs) == 0 && wm.loop && decoderHasOpaqueLoop {
+			r.OK("mirror", k.Name, inst, pos, "list elements written in a loop; the decoder walks its list in a loop the interpreter does not summarise (general for loop): element records not compared", false)
+			continue
+		}
 		if len(rs) == 0 {
 			if o := readAt(wm.off); o != nil && !o.local && o.field != "" && o.field != wm.field && !isPad(o.field) {
 				r.Fail(VViolation, "mirror", k.Name, inst, pos, fmt.Sprintf("the encoder writes %s at offset %v, but the decoder reads that offset into %s: the two fields are crossed", wm.field, wm.off, o.field))
@@ -576,7 +586,15 @@ func mirrorKind(w *World, r *Report, k *Kind, efi, dfi *FuncInfo) {
 			packed := false
 			computed := ""
 			altered := ""
+			zeroed := false
 			for _, wm := range W {
+				// zeros (or a constant) written where the decoder takes a field: the field never reaches the wire
+				if wm.off.Equal(rm.off) && (wm.kind == "zero" || wm.raw == "zero") {
+					if wm.w.Equal(rm.w) && wm.guard == "" && rm.guard == "" {
+						zeroed = true
+					}
+					continue // zeros are not the field packed with others
+				}
 				if wm.off.Equal(rm.off) && (wm.local || wm.kind == "packed") {
 					// a value computed from other parts of the receiver (the size of the payload written where
 					// the decoder finds a stored field) is not that field packed with others
@@ -606,6 +624,10 @@ func mirrorKind(w *World, r *Report, k *Kind, efi, dfi *FuncInfo) {
 			}
 			if packed {
 				r.OK("mirror", k.Name, inst, w.Pos(rm.pos), fmt.Sprintf("offset %v is packed from several fields on the encoder side (bit-lane rule)", rm.off), false)
+				continue
+			}
+			if zeroed && !packed {
+				r.Fail(VViolation, "mirror", k.Name, inst, w.Pos(rm.pos), fmt.Sprintf("the decoder fills %s from offset %v, where the encoder writes zero bytes: the field's value never reaches the wire and a round trip loses it", rm.field, rm.off))
 				continue
 			}
 			if altered != "" && !packed {
